@@ -192,7 +192,8 @@ CHECKS = {
         note="listed circuit shapes only (<= 46 rows quick, <= 2110 rows thorough; 0..5 public inputs; with and "
              "without range/logic gates); deciding step is equality of hash-consed terms (syntactic case of the "
              "field identity, no SMT call needed on the current tree); bit-level canonicity of the dependency's "
-             "scalar/point codecs is assumed",
+             "scalar/point codecs is assumed; byte-level canonicity of the proof decoder itself is the Kani harness "
+             "proof_from_bytes run under C17",
         tech="symbolic execution of the real (de)serialization, proving and verification code (symbolic field + "
              "dlog groups + random-oracle transcript); term identity, native replay of any difference"),
 }
